@@ -327,6 +327,12 @@ class Normaliser:
                 return True
             if isinstance(n, ast.If) and isinstance(n.test, ast.Constant):
                 return True
+            if isinstance(n, ast.Call) and isinstance(n.func, ast.Attribute) and n.func.attr == 'join' \
+                    and isinstance(n.func.value, ast.Constant) and len(n.args) == 1 and isinstance(n.args[0], ast.Call):
+                return True
+            if isinstance(n, ast.Assign) and isinstance(n.value, ast.Call) and isinstance(n.value.func, ast.Name) \
+                    and n.value.func.id[:1].isupper() and self.baseline and n.value.func.id in self.new_class_names():
+                return True
             if isinstance(n, ast.For):
                 it = n.iter
                 if isinstance(it, ast.Call) and isinstance(it.func, ast.Attribute) and it.func.attr == 'get':
@@ -364,6 +370,8 @@ class Normaliser:
             c2 = self._format_to_fstring(fn) or c2
             c3 = self._inline_calls(fn, rel, mod, cls, stack, depth) if depth < MAX_DEPTH else False
             c4 = self._namedtuple_unpack(fn, mod)
+            c4 = self._scalar_replace_records(fn, mod) or c4
+            c4 = self._join_of_generator(fn, rel, mod, cls) or c4
             c5 = self._unroll_constant_tables(fn, mod, cls)
             c5 = self._fold_constant_ifs(fn) or c5
             c5 = self._sink_table_loops(fn, mod, cls) or c5
@@ -565,6 +573,205 @@ class Normaliser:
                 continue
             n.value = ast.copy_location(ast.Tuple(elts=vals, ctx=ast.Load()), call)
             changed = True
+        return changed
+
+    @staticmethod
+    def _record_classes(mod) -> dict:
+        """NamedTuple / dataclass records of the module: name -> (class, [(field, default)], {property: expr})"""
+        out = {}
+        for c in getattr(mod, 'body', []):
+            if not isinstance(c, ast.ClassDef):
+                continue
+            is_nt = any(ast.unparse(b).split('.')[-1] == 'NamedTuple' for b in c.bases)
+            is_dc = any(ast.unparse(d.func if isinstance(d, ast.Call) else d).split('.')[-1] == 'dataclass'
+                        for d in c.decorator_list)
+            if not (is_nt or is_dc) or (is_dc and c.bases):
+                continue
+            fields = [(x.target.id, x.value) for x in c.body if isinstance(x, ast.AnnAssign)
+                      and isinstance(x.target, ast.Name) and 'ClassVar' not in ast.unparse(x.annotation)]
+            props = {}
+            simple = True
+            for m in c.body:
+                if isinstance(m, ast.FunctionDef):
+                    decs = [ast.unparse(d) for d in m.decorator_list]
+                    body = [x for x in m.body if not (isinstance(x, ast.Expr) and isinstance(x.value, ast.Constant))]
+                    if decs == ['property'] and len(body) == 1 and isinstance(body[0], ast.Return) \
+                            and body[0].value is not None and len(m.args.args) == 1:
+                        props[m.name] = (m.args.args[0].arg, body[0].value)
+                    elif m.name in ('__post_init__', '__new__', '__init__', '__getattr__', '__getattribute__'):
+                        simple = False
+            if simple and fields:
+                out[c.name] = (c, fields, props)
+        return out
+
+    def _scalar_replace_records(self, fn: ast.AST, mod) -> bool:
+        """`w = Window(a, b)` .. `w.start` .. `w.length` (a NamedTuple / dataclass of the module that only
+        carries values between two places of one function, typically after a helper was inlined): one
+        local per field.  Only when every use of the name is a read (or, for a dataclass, a write) of a
+        declared field or a one-expression property, and every assignment of the name is a constructor
+        call of the same record class."""
+        recs = self._record_classes(mod)
+        if not recs:
+            return False
+        changed = False
+        params = {a.arg for a in fn.args.args + fn.args.kwonlyargs} if hasattr(fn, 'args') else set()
+        parent_of = {id(ch): nd for nd in ast.walk(fn) for ch in ast.iter_child_nodes(nd)}
+        # candidate names
+        assigns: dict[str, list[ast.Assign]] = {}
+        for n in ast.walk(fn):
+            if isinstance(n, (ast.Assign, ast.AnnAssign)) and getattr(n, 'value', None) is not None:
+                tg = n.targets if isinstance(n, ast.Assign) else [n.target]
+                if len(tg) == 1 and isinstance(tg[0], ast.Name):
+                    assigns.setdefault(tg[0].id, []).append(n)
+        for name, defs in assigns.items():
+            if name in params:
+                continue
+            kinds = {d.value.func.id if isinstance(d.value, ast.Call) and isinstance(d.value.func, ast.Name) else None
+                     for d in defs}
+            if len(kinds) != 1 or None in kinds or next(iter(kinds)) not in recs:
+                continue
+            cname = next(iter(kinds))
+            cdef, fields, props = recs[cname]
+            fnames = [f for f, _ in fields]
+            is_nt = any(ast.unparse(b).split('.')[-1] == 'NamedTuple' for b in cdef.bases)
+            ok = True
+            uses = []
+            for n in ast.walk(fn):
+                if isinstance(n, ast.Name) and n.id == name:
+                    par = parent_of.get(id(n))
+                    if isinstance(n.ctx, ast.Store) and any(n is (d.targets[0] if isinstance(d, ast.Assign) else d.target)
+                                                            for d in defs):
+                        continue
+                    if isinstance(par, ast.Attribute) and par.value is n and (
+                            (par.attr in fnames and (isinstance(par.ctx, ast.Load) or not is_nt))
+                            or (par.attr in props and isinstance(par.ctx, ast.Load))):
+                        uses.append(par)
+                        continue
+                    ok = False
+                    break
+                if isinstance(n, ast.ExceptHandler) and n.name == name:
+                    ok = False
+                    break
+                if isinstance(n, (ast.Global, ast.Nonlocal)) and name in n.names:
+                    ok = False
+                    break
+            if not ok or not uses:
+                continue
+            # every constructor call must bind all fields plainly
+            plans = []
+            for d in defs:
+                call = d.value
+                if any(isinstance(a, ast.Starred) for a in call.args) or any(k.arg is None for k in call.keywords) \
+                        or len(call.args) > len(fields):
+                    ok = False
+                    break
+                order: list[tuple[str, ast.AST]] = [(fnames[i], a) for i, a in enumerate(call.args)]
+                for k in call.keywords:
+                    if k.arg not in fnames or k.arg in [f for f, _ in order]:
+                        ok = False
+                        break
+                    order.append((k.arg, k.value))
+                given = {f for f, _ in order}
+                for f, dflt in fields:
+                    if f not in given:
+                        if dflt is None or not isinstance(dflt, ast.Constant):
+                            ok = False
+                            break
+                        order.append((f, dflt))
+                if not ok:
+                    break
+                plans.append((d, order))
+            if not ok:
+                continue
+            loc = {f: f'{name}__{f}' for f in fnames}
+            taken = {x.id for x in ast.walk(fn) if isinstance(x, ast.Name)}
+            if any(v in taken for v in loc.values()):
+                continue
+            # the parent links must be current for the replacement
+            for d, order in plans:
+                new = [ast.copy_location(ast.Assign(targets=[ast.Name(id=loc[f], ctx=ast.Store())], value=v), d)
+                       for f, v in order]
+                for blk in self._blocks(fn):
+                    for i, st in enumerate(blk):
+                        if st is d:
+                            blk[i:i + 1] = new
+                            break
+
+            class R(ast.NodeTransformer):
+                def visit_Attribute(inner, node):
+                    if isinstance(node.value, ast.Name) and node.value.id == name:
+                        if node.attr in loc:
+                            return ast.copy_location(ast.Name(id=loc[node.attr], ctx=node.ctx), node)
+                        if node.attr in props:
+                            selfname, expr = props[node.attr]
+
+                            class P(ast.NodeTransformer):
+                                def visit_Attribute(p_, nd):
+                                    if isinstance(nd.value, ast.Name) and nd.value.id == selfname and nd.attr in loc:
+                                        return ast.Name(id=loc[nd.attr], ctx=ast.Load())
+                                    return p_.generic_visit(nd)
+                            e = P().visit(clone(expr))
+                            if any(isinstance(x, ast.Name) and x.id == selfname for x in ast.walk(e)):
+                                return node
+                            return ast.copy_location(e, node)
+                    return inner.generic_visit(node)
+            R().visit(fn)
+            if any(isinstance(x, ast.Name) and x.id == name for x in ast.walk(fn)):
+                # a property that could not be written out: leave the (now inconsistent) function alone
+                raise RecursionError('record replacement incomplete')
+            ast.fix_missing_locations(fn)
+            parent_of = {id(ch): nd for nd in ast.walk(fn) for ch in ast.iter_child_nodes(nd)}
+            changed = True
+        return changed
+
+    def _join_of_generator(self, fn: ast.AST, rel, mod, cls) -> bool:
+        """`return b''.join(self.slices(a))` with a new generator helper: the explicit accumulation
+        `_j = []; for _x in self.slices(a): _j.append(_x); return b''.join(_j)` (the loop is then merged
+        with the generator body like any other loop over it)"""
+        changed = False
+        for blk in list(self._blocks(fn)):
+            i = 0
+            while i < len(blk):
+                st = blk[i]
+                i += 1
+                if not isinstance(st, (ast.Return, ast.Assign, ast.AnnAssign, ast.Expr, ast.AugAssign)) \
+                        or getattr(st, 'value', None) is None:
+                    continue
+                hit = None
+                for n in ast.walk(st.value):
+                    if isinstance(n, ast.Call) and isinstance(n.func, ast.Attribute) and n.func.attr == 'join' \
+                            and isinstance(n.func.value, ast.Constant) and len(n.args) == 1 and not n.keywords \
+                            and isinstance(n.args[0], ast.Call):
+                        r = self._resolve(n.args[0], fn, rel, mod, cls)
+                        if r is not None and self._acceptable_generator(r[0]) and any(
+                                isinstance(y, ast.Yield) for y in ast.walk(r[0])):
+                            hit = n
+                            break
+                if hit is None:
+                    continue
+                # the join must be the first thing the statement evaluates that can have an effect
+                calls_before = [c for c in ast.walk(st.value) if isinstance(c, ast.Call) and c is not hit
+                                and not any(c is x for x in ast.walk(hit))
+                                and (c.lineno, c.col_offset) < (hit.lineno, hit.col_offset)
+                                and not any(hit is x for x in ast.walk(c))]
+                if calls_before:
+                    continue
+                self._tmp = getattr(self, '_tmp', 0) + 1
+                acc, item = f'_j{self._tmp}', f'_j{self._tmp}x'
+                gen_call = hit.args[0]
+                hit.args[0] = ast.Name(id=acc, ctx=ast.Load())
+                pre = [ast.Assign(targets=[ast.Name(id=acc, ctx=ast.Store())], value=ast.List(elts=[], ctx=ast.Load())),
+                       ast.For(target=ast.Name(id=item, ctx=ast.Store()), iter=gen_call,
+                               body=[ast.Expr(value=ast.Call(func=ast.Attribute(value=ast.Name(id=acc, ctx=ast.Load()),
+                                                                                attr='append', ctx=ast.Load()),
+                                                             args=[ast.Name(id=item, ctx=ast.Load())], keywords=[]))],
+                               orelse=[])]
+                for x in pre:
+                    ast.copy_location(x, st)
+                    ast.fix_missing_locations(x)
+                blk[i - 1:i - 1] = pre
+                i += len(pre)
+                changed = True
         return changed
 
     def _blocks(self, fn: ast.AST):
@@ -1466,3 +1673,64 @@ def propagate_attr_aliases(fn: ast.AST) -> ast.AST:
                 return ast.copy_location(clone(amap[node.id]), node)
             return node
     return T().visit(new)
+
+
+def propagate_single_use(fn: ast.AST) -> ast.AST:
+    """`fn` (changed in place) with `t = <call-free expr>; <simple statement reading t once>` written as the
+    one statement, when `t` is assigned once and read once in the whole function: a name that only
+    labels a value for the next line"""
+    def is_free(e: ast.AST) -> bool:
+        return not any(isinstance(x, (ast.Call, ast.Await, ast.Yield, ast.YieldFrom, ast.NamedExpr, ast.Lambda))
+                       for x in ast.walk(e))
+    while True:
+        stores: dict[str, int] = {}
+        loads: dict[str, int] = {}
+        for n in ast.walk(fn):
+            if isinstance(n, ast.Name):
+                d = stores if isinstance(n.ctx, (ast.Store, ast.Del)) else loads
+                d[n.id] = d.get(n.id, 0) + 1
+        params = {a.arg for a in fn.args.args + fn.args.kwonlyargs} if hasattr(fn, 'args') else set()
+        done = False
+        for n in ast.walk(fn):
+            for fld in ('body', 'orelse', 'finalbody'):
+                blk = getattr(n, fld, None)
+                if not (isinstance(blk, list) and blk and isinstance(blk[0], ast.stmt)):
+                    continue
+                for i in range(len(blk) - 1):
+                    a, b = blk[i], blk[i + 1]
+                    if not (isinstance(a, ast.Assign) and len(a.targets) == 1 and isinstance(a.targets[0], ast.Name)
+                            and isinstance(b, (ast.Expr, ast.Assign, ast.AugAssign, ast.Return, ast.AnnAssign))):
+                        continue
+                    t = a.targets[0].id
+                    if t in params or stores.get(t) != 1 or loads.get(t) != 1 or not is_free(a.value):
+                        continue
+                    hits = [x for x in ast.walk(b) if isinstance(x, ast.Name) and x.id == t and isinstance(x.ctx, ast.Load)]
+                    if len(hits) != 1:
+                        continue
+                    # names the expression reads must not be rebound by the reading statement before the read
+                    # (an augmented assignment reads its target first: harmless for a call-free expression)
+
+                    class S(ast.NodeTransformer):
+                        def visit_Name(self, node):
+                            if node is hits[0]:
+                                return ast.copy_location(clone(a.value), node)
+                            return node
+                    S().visit(b)
+                    del blk[i]
+                    done = True
+                    break
+                if done:
+                    break
+            if done:
+                break
+        if not done:
+            break
+    ast.fix_missing_locations(fn)
+    return fn
+
+
+def set_parents(fn: ast.AST) -> ast.AST:
+    for node in ast.walk(fn):
+        for child in ast.iter_child_nodes(node):
+            child._parent = node          # type: ignore[attr-defined]
+    return fn
